@@ -74,3 +74,9 @@ def run(chk, tier, only_rule=None):
                 if stores: chk.ok('R08.3', site, {'function': fn['q'], 'error': stores[0].get('n')})
                 else: chk.fail('R08.3', site, fn['file'], fn['l'], 'length-less %s does not store *_length_required' % fn['n'], None, fn['q'])
     c10.r10_2(chk, tier)
+    # the JSON encoders' string literals are well-formed only if every control character is escaped (R01.1); the CBOR stringref
+    # indices the encoder assigns denote the pushed strings only if its eligibility test is the specification's (R06.3)
+    from . import c01
+    c01.r01_1(chk, F.load(['core'], tier))
+    if 'core' not in chk.units: chk.units.append('core')
+    c06.r06_3(chk, tier)
